@@ -1,7 +1,7 @@
 (* Nbr.v — neighbors.py (_Neighbors, _Radius, _KNearest) and approximate.py (_LSHNearest),
    plus the generic "learning policy" sum type used by every neighbourhood policy. *)
 From Coq Require Import ZArith List Bool.
-From MW Require Import Num Assoc Rng CF Matrix Lin.
+From MW Require Import Num Assoc Rng CF Matrix Lin Par.
 Import ListNotations.
 
 Inductive metric := Cityblock | Chebyshev | SqEuclidean | Euclidean.
@@ -230,13 +230,6 @@ Fixpoint nbr_rows (s : nbr) (l : lp) (seeds : list Z) (rows : mat (R:=R)) (oracl
           end
       end
   | _, _ => Some []
-  end.
-
-(* split a list into consecutive chunks of the given sizes *)
-Fixpoint chunks {T} (sizes : list nat) (l : list T) : list (list T) :=
-  match sizes with
-  | [] => []
-  | n :: t => firstn n l :: chunks t (skipn n l)
   end.
 
 (* _parallel_predict: one seed per row drawn from the bandit's generator before partitioning;
